@@ -219,22 +219,32 @@ def run_case(case: dict, transports: list[str] | None = None) -> Outcome:
     for tr in transports or case.get("transports") or QUICK_TRANSPORTS:
         obs: list = []
         observed[tr] = obs
-        with G.open_transport(tr, proto, impl) as proxy:
+        with G.open_transport(tr, proto, impl) as conn:
             for ci, c in enumerate(calls):
                 m = methods[c["m"]]
-                obs.append(_one_call(out, tr, proxy, rec, env, m, c, ci))
+                obs.append(_one_call(out, tr, conn, rec, env, m, c, ci))
+                if conn.crashed or (conn.thread is not None and not conn.thread.is_alive()):
+                    # the in-process server loop died; whatever follows on this connection says nothing about C02
+                    out.label("server_loop_died")
+                    obs.extend([("skipped",)] * (len(calls) - ci - 1))
+                    break
     # differential: every transport must give the same verdict shape per call (ok / error)
     kinds = {tr: [o[0] for o in obs] for tr, obs in observed.items()}
     first = next(iter(kinds.values()))
     for tr, ks in kinds.items():
-        if ks != first:
+        if any(a != b for a, b in zip(ks, first, strict=True) if "skipped" not in (a, b)):
             out.fail("transport_disagreement/outcome", f"call outcomes differ across transports: {kinds}")
             break
     out.note = {"methods": [[m["name"], [G.type_sig(p["t"]) for p in m["params"]]] for m in methods], "outcomes": kinds}
     return out
 
 
-def _one_call(out: Outcome, tr: str, proxy: Any, rec: list, env: G.Env, m: dict, c: dict, ci: int) -> tuple:
+def _is_opt_dc(t: dict) -> bool:
+    return t["k"] == "opt" and t["of"]["k"] == "dc"
+
+
+def _one_call(out: Outcome, tr: str, conn: Any, rec: list, env: G.Env, m: dict, c: dict, ci: int) -> tuple:
+    proxy = conn.proxy
     bad = c.get("bad")
     kwargs: dict[str, Any] = {}
     expected: dict[str, Any] = {}
@@ -255,6 +265,7 @@ def _one_call(out: Outcome, tr: str, proxy: Any, rec: list, env: G.Env, m: dict,
         err: BaseException | None = None
     except Exception as e:  # every failure mode of a call is an acceptable *rejection*; judged below
         result, err = None, e
+    dead = conn.settle() if err is not None else False
     invoked = [r for r in rec if r[0] == m["name"]]
     rp = m["params"][m["ret"]]
     ret_t = m.get("ret_t")
@@ -263,7 +274,22 @@ def _one_call(out: Outcome, tr: str, proxy: Any, rec: list, env: G.Env, m: dict,
         narrow_unfit = ret_t is not None and expected[rp["name"]] is not None and not _fits(ret_t, expected[rp["name"]])
         if len(invoked) > 1:
             out.fail(f"invoked_twice/{tc}", f"{tr}: {m['name']} ran {len(invoked)} times for one call")
+        if err is not None and invoked and _is_opt_dc(ret_t or rp["t"]):
+            died = f"; the server loop died with {type(conn.crashed[0]).__name__}" if conn.crashed else ""
+            out.fail(f"result_optional_dataclass/{tc}",
+                     f"{tr}: {m['name']} declared '-> {G.type_sig(ret_t or rp['t'])}' returned {G._short(expected[rp['name']])} and the call failed with "
+                     f"{type(err).__name__}: {str(err)[:200]}{died}")
+            # still compare what the method received
+            got = invoked[0][1]
+            for p in m["params"]:
+                for mm in G.diff(expected[p["name"]], got.get(p["name"], "<missing>"), p["t"], env, p["name"]):
+                    out.fail(f"param_changed/{tc}/{mm.key}", f"{tr}: {m['name']} received {mm.path}: {mm.what}")
+            return ("error", "optional_dataclass_result")
         if err is not None and not (narrow_unfit and invoked):
+            if dead and conn.crashed:
+                out.fail(f"server_loop_died/{tc}/{type(conn.crashed[0]).__name__}/{sig}",
+                         f"{tr}: {m['name']}({_kw(kwargs)}): exception escaped RpcServer.serve: {conn.crashed[0]!r}; client saw {type(err).__name__}: {str(err)[:200]}")
+                return ("error", "server_loop_died")
             out.fail(f"in_domain_rejected/{tc}/{_err_name(err)}/{sig}",
                      f"{tr}: {m['name']}({_kw(kwargs)}) raised {type(err).__name__}: {str(err)[:300]}")
             return ("error", _err_name(err))
@@ -277,7 +303,7 @@ def _one_call(out: Outcome, tr: str, proxy: Any, rec: list, env: G.Env, m: dict,
                          f"(declared {G.type_sig(p['t'])}, sent {G._short(kwargs.get(p['name'], '<default>'))})")
         if narrow_unfit:
             if err is None:
-                out.fail(f"result_silent_change/{tc}/{G.type_sig(ret_t)}",
+                out.fail(f"result_silent_change/{tc}/{ret_t['k']}",
                          f"{tr}: {m['name']} returned {G._short(expected[rp['name']])} through declared result type {G.type_sig(ret_t)}; "
                          f"client got {G._short(result)} instead of an error")
                 return ("ok",)
@@ -290,17 +316,19 @@ def _one_call(out: Outcome, tr: str, proxy: Any, rec: list, env: G.Env, m: dict,
     sent = kwargs[bad["p"]]
     if err is not None and not invoked:
         return ("error", "rejected")
+    changed = False
     if invoked:
         seen = invoked[0][1].get(bad["p"], "<missing>")
         if bad["kind"] == "none":
             out.fail(f"none_for_non_optional_invoked/{tc}", f"{tr}: {m['name']} ran with {bad['p']}=None although it is declared {G.type_sig(bt)}")
         elif not _py_equal(seen, sent):
-            out.fail(f"silent_change/{tc}/{bad['kind']}/{G.type_sig(G.strip_opt(bt))}",
+            changed = True
+            out.fail(f"silent_change/{tc}/{bad['kind']}/{G.strip_opt(bt)['k']}",
                      f"{tr}: {m['name']}({bad['p']}={sent!r}) — declared {G.type_sig(bt)} cannot represent it — was not rejected: "
                      f"the method ran with {bad['p']}={seen!r}")
-    if err is None and bad["p"] == rp["name"] and invoked and bad["kind"] != "none":
+    if err is None and bad["p"] == rp["name"] and invoked and bad["kind"] != "none" and not changed:
         if not _py_equal(result, sent):
-            out.fail(f"silent_change_result/{tc}/{bad['kind']}/{G.type_sig(G.strip_opt(bt))}",
+            out.fail(f"silent_change_result/{tc}/{bad['kind']}/{G.strip_opt(bt)['k']}",
                      f"{tr}: {m['name']}({bad['p']}={sent!r}) returned {result!r}")
     return ("ok",) if err is None else ("error", "after_invoke")
 
